@@ -340,13 +340,24 @@ class NumpyModel:
         """a[mask] for 1-D a and boolean mask: order preserving sub-sequence (assumed NumPy contract)."""
         n = a.shape[0]
         self.oblige(st, num_cmp("==", mask.shape[0], n), "lib", "boolean mask index: mask length equals array length", node)
-        L = z3.Int(fresh_name("glen"))
+        maps = getattr(mask, "_gather_maps", None)
+        if maps is None:
+            L = z3.Int(fresh_name("glen"))
+            src = z3.Function(fresh_name("gsrc"), z3.IntSort(), z3.IntSort())   # out position -> source position
+            pos = z3.Function(fresh_name("gpos"), z3.IntSort(), z3.IntSort())   # source position -> out position
+            mask._gather_maps = (L, src, pos)
+            first = True
+        else:
+            L, src, pos = maps      # the same mask selects the same positions: aligned gathers share the maps
+            first = False
         res = sym_array("gath", (L,), a.kind, own=True)
-        src = z3.Function(fresh_name("gsrc"), z3.IntSort(), z3.IntSort())   # out position -> source position
-        pos = z3.Function(fresh_name("gpos"), z3.IntSort(), z3.IntSort())   # source position -> out position
         k, k2, i = fresh_int("k"), fresh_int("k"), fresh_int("i")
-        st.assume(mk_and(L >= 0, L <= to_z3(n)))
         rk = res.get(k)
+        if not first:
+            st.assume(z3.ForAll([k], z3.Implies(z3.And(k >= 0, k < L), rk == cast(a.get(src(k)), a.kind)), patterns=[rk]))
+            res.gather_src, res.gather_pos = src, pos
+            return res
+        st.assume(mk_and(L >= 0, L <= to_z3(n)))
         st.assume(z3.ForAll([k], z3.Implies(z3.And(k >= 0, k < L),
                                             z3.And(src(k) >= 0, src(k) < to_z3(n), mask.get(src(k)),
                                                    rk == cast(a.get(src(k)), a.kind), pos(src(k)) == k)),
